@@ -30,7 +30,7 @@ Obj(k, cls, keys, e, ast, env) == [k |-> k, cls |-> cls, keys |-> keys, e |-> e,
 NoAst == [k |-> "none"]
 
 M0 == [cells |-> <<>>, objs |-> <<>>, frames |-> << << <<>> >> >>, globals |-> <<>>, funs |-> <<>>, classes |-> <<>>,
-       out |-> <<>>, err |-> "", fuel |-> 400, ast |-> <<>>]
+       out |-> <<>>, err |-> "", fuel |-> 400, ast |-> <<>>, stack |-> <<>>]
 R(M, ctl, d) == [M |-> M, ctl |-> ctl, d |-> d]
 Err(M, cls) == R([M EXCEPT !.err = cls], "err", 0)
 Norm(M, d) == R(M, "norm", d)
@@ -132,7 +132,7 @@ BinOp(M, op, x, y) ==      \* result value or "bad"
 TypeName(v) == CASE v.t = "int" -> "int" [] v.t = "bool" -> "bool" [] v.t = "str" -> "string" [] OTHER -> v.t
 
 \* ---------------------------------------------------------------- the evaluator
-RECURSIVE Ev(_, _), EvSeq(_, _, _), EvArgs(_, _, _, _), Call(_, _, _), CallFn(_, _, _, _), TryFuns(_, _, _, _), While(_, _), ForLoop(_, _),
+RECURSIVE Ev(_, _), EvNode(_, _), EvSeq(_, _, _), EvArgs(_, _, _, _), Call(_, _, _), CallFn(_, _, _, _), TryFuns(_, _, _, _), While(_, _), ForLoop(_, _),
           RFor(_, _, _, _), Cases(_, _, _, _, _), ElseIfs(_, _, _), VecLit(_, _, _, _), MapLit(_, _, _, _, _), Assign(_, _, _)
 
 \* evaluates a sequence of statements; the value of the last one is the value of the block
@@ -266,7 +266,11 @@ ElseIfs(eis, i, M) ==      \* returns [taken, r]
        ELSE IF Val(c.M, c.d).i = 1 THEN [taken |-> TRUE, r |-> Block(eis[i].b, c.M)]
        ELSE ElseIfs(eis, i + 1, c.M)
 
-Ev(e, M) ==
+\* C20: while an error unwinds, every node it passes appends itself to the error's call stack (AST_Node_Impl::eval does this for
+\* every node; the reference records the nodes that carry a label "lab": the failing identifier / call and every enclosing call)
+Ev(e, M) == LET r == EvNode(e, M) IN
+            IF r.ctl = "err" /\ "lab" \in DOMAIN e THEN [r EXCEPT !.M.stack = Append(@, e.lab)] ELSE r
+EvNode(e, M) ==
   CASE e.k = "int" -> Lit(M, e, VInt(e.v))
     [] e.k = "bool" -> Lit(M, e, VBool(e.v))
     [] e.k = "str" -> Lit(M, e, VStr(e.v))
@@ -404,11 +408,11 @@ Run(prog) == LET r == EvSeq(prog, 1, M0) IN
 RECURSIVE RunSegs(_, _, _, _)
 RunSegs(segs, i, M, acc) ==
   IF i > Len(segs) THEN acc
-  ELSE LET r == EvSeq(segs[i].b, 1, [M EXCEPT !.out = <<>>, !.err = ""])
+  ELSE LET r == EvSeq(segs[i].b, 1, [M EXCEPT !.out = <<>>, !.err = "", !.stack = <<>>])
            res == [out |-> r.M.out,
                    oc |-> IF r.ctl = "err" THEN r.M.err ELSE IF r.ctl = "fuel" THEN "fuel" ELSE IF r.ctl \in {"brk", "cont"} THEN "ee" ELSE "val",
                    v |-> IF r.ctl \in {"norm", "ret"} /\ r.d # 0 /\ Printable(r.M, Val(r.M, r.d)) THEN TypeName(Val(r.M, r.d)) \o ":" \o ToStr(r.M, Val(r.M, r.d)) ELSE "",
-                   astok |-> AstUnchanged(r.M)]
+                   astok |-> AstUnchanged(r.M), stack |-> IF r.ctl = "err" THEN r.M.stack ELSE <<>>]
            Mn == [r.M EXCEPT !.frames = << << r.M.frames[1][1] >> >>]
        IN RunSegs(segs, i + 1, Mn, Append(acc, res))
 
